@@ -70,6 +70,7 @@ def gen_spec(rnd):
 def plan(tier, seed):
     n = 6000 if tier == 'quick' else 150000
     return ([{'kind': 'random', 'seed': seed, 'idx': i} for i in range(n)] +
+            [{'kind': 'parallel-kill', 'seed': seed, 'idx': i} for i in range(40 if tier == 'quick' else 400)] +
             [{'kind': 'live', 'seed': seed, 'idx': i} for i in range(3 if tier == 'quick' else 30)])
 
 
@@ -98,6 +99,20 @@ def run_case(spec):
         return res
     if 'steps' in spec:
         run_history(spec, res)
+    elif spec.get('kind') == 'parallel-kill':
+        # several workers that all sit out the whole grace period: the applicable timeout is one graceful_timeout
+        # (+ warmups), not one per worker
+        rnd = rng_for(spec['seed'], 'C05-par', spec['idx'])
+        np_ = rnd.choice([2, 3, 4])
+        gt = rnd.choice([1.0, 2.0, 3.0])
+        wconf = {'name': 'a', 'numprocesses': np_, 'graceful_timeout': gt, 'warmup_delay': 0, 'singleton': False,
+                 'beh': [{'15': ['ignore']}]}
+        op = rnd.choice([['req', 'stop', {'name': 'a', 'waiting': True}], ['req', 'restart', {'name': 'a', 'waiting': True}],
+                         ['req', 'reload', {'name': 'a', 'waiting': True}], ['req', 'rm', {'name': 'a', 'waiting': True}],
+                         ['req', 'set', {'name': 'a', 'options': {'numprocesses': 0}, 'waiting': True}],
+                         ['req', 'decr', {'name': 'a', 'nb': np_, 'waiting': True}]])
+        run_history({'kill_latency': 0.0, 'watchers': [wconf], 'steps': [['adv', 0.2], op, ['adv', 0.1]]}, res)
+        res.obs['parallel_kill_cases'] += 1
     else:
         run_history(gen_spec(rng_for(spec['seed'], 'C05', spec['idx'])), res)
     return res
